@@ -1456,6 +1456,35 @@ int32 matrixUpdateSession(ssl_t *ssl)
 
 /******************************************************************************/
 /*
+    Access to the session ticket key list from the other modules (TLS 1.3
+    tickets, ClientHello extension parsing).
+ */
+void matrixSessionTicketKeysLock(void)
+{
+    psLockMutex(&g_sessTicketLock);
+}
+
+void matrixSessionTicketKeysUnlock(void)
+{
+    psUnlockMutex(&g_sessTicketLock);
+}
+
+psBool_t matrixSessionTicketKeysLoaded(sslKeys_t *keys)
+{
+    psBool_t loaded;
+
+    if (keys == NULL)
+    {
+        return PS_FALSE;
+    }
+    psLockMutex(&g_sessTicketLock);
+    loaded = (keys->sessTickets != NULL) ? PS_TRUE : PS_FALSE;
+    psUnlockMutex(&g_sessTicketLock);
+    return loaded;
+}
+
+/******************************************************************************/
+/*
     Remove a named key from the list.
 
     NOTE: If this list can get very large the faster DLList API should be
